@@ -4,11 +4,13 @@ CONSTANTS
   Txs = {"t1", "t2", "t3"}
   SponsorOf <- Sp3
   SizeOf <- Sz3
-  Rates = {0, 1, 2}
+  Rates = {0, 1}
+  FailRates = {1}
   Maxes = {0, 2, 3}
   Stamps = {2, 4}
   ExpChoices <- OneExp
   MaxChunk = 2
   FixedCode = FALSE
+  LateTrack = FALSE
 INVARIANTS TypeOK PendingIsSumOfUnsettled ZeroWhenSettled WithinMax RecordMatchesOpen OpenWillBeReleased
 CHECK_DEADLOCK FALSE
